@@ -482,6 +482,7 @@ def run_mc(mc, tier, wd, stats):
 
 
 def replay(prop, path):
+    """Re-run one recorded finding (program + scheduler seed) on the current tree and re-apply its oracle."""
     rp = json.load(open(path))
     wd = vlib.workdir("replay_" + prop)
     vlib.build_harness()
@@ -495,21 +496,27 @@ def replay(prop, path):
         log("  harness process died again (rc=%d)" % r["rc"])
         return 1
     bad = False
-    z = [json.loads(l) for l in open(r["hist"]) if l.startswith('{"e":"Z"')]
+    z = [json.loads(l) for l in open(r["hist"], errors="replace") if l.startswith('{"e":"Z"')]
     if z and z[-1].get("stuck"):
         bad = True
         log("  execution is stuck again:", json.dumps(z[-1]))
-    mon = rp.get("detail", {}).get("monitor")
-    if mon:
-        v = vlib.validate_trace("KanalHistory", "KanalHistory_%s.cfg" % mon, r["hist"], wd)
+    kind = rp.get("kind")
+    det = rp.get("detail", {})
+    if kind == "l0" and det.get("monitor"):
+        v = vlib.validate_trace("KanalHistory", "KanalHistory_%s.cfg" % det["monitor"], r["hist"], wd)
         if v["rejected"]:
             bad = True
-            log("  L0 monitor %s rejects at: %s" % (mon, v["rejected"][0]["record"]))
-    if rp.get("kind") in ("l1", "l1-other"):
+            log("  L0 monitor %s rejects at: %s" % (det["monitor"], v["rejected"][0]["record"]))
+    if kind in ("l1", "l1-other"):
         v = vlib.validate_trace("KanalAtomicTrace", "KanalAtomicTrace.cfg", r["hist"], wd)
         if v["rejected"]:
             bad = True
             log("  L1 rejects at: %s" % v["rejected"][0]["record"])
+    if kind == "raw" and det.get("monitor"):
+        v = vlib.validate_trace(det["monitor"], det["monitor"] + ".cfg", r["raw"], wd, splitter=vlib.split_raw)
+        if v["rejected"]:
+            bad = True
+            log("  %s rejects at: %s" % (det["monitor"], v["rejected"][0]["record"][:300]))
     if bad:
         log("VIOLATION property=%s replay=%s" % (prop, path))
         return 1
